@@ -203,6 +203,31 @@ def free_gradient_norm(c, x, g, absmax=None):
     return math.sqrt(s), pinned
 
 
+def on_face(c, r, i):
+    """-1 / +1 if component i of the returned state lies (float regime) on its lower / upper face, else 0"""
+    if not c["bounded"]:
+        return 0
+    x = r["x"][i]
+    am = r["absmax"][i] if r.get("absmax") and i < len(r["absmax"]) else 0.0
+    lo, up = c["lo"][i], c["up"][i]
+    if finite_bound(lo) and x <= lo + ULPS * ulp(max(abs(lo), abs(x), am)):
+        return -1
+    if finite_bound(up) and x >= up - ULPS * ulp(max(abs(up), abs(x), am)):
+        return 1
+    return 0
+
+
+def held_inward(c, r, tol):
+    """finding F-33's predicate: some component lies on a face although its gradient points into the box, and the
+    gradient over the components that are NOT on a face is within the threshold (i.e. the whole excess is due to
+    variables the Levenberg minimizer kept pinned)"""
+    n = c["n"]
+    faces = [on_face(c, r, i) for i in range(n)]
+    inward = [i for i in range(n) if (faces[i] == -1 and r["g"][i] < 0) or (faces[i] == 1 and r["g"][i] > 0)]
+    rest = math.sqrt(sum(r["g"][i] ** 2 for i in range(n) if faces[i] == 0))
+    return bool(inward) and rest <= tol * (1 + 1e-12) + 1e-300
+
+
 def oracle_c18(c, r, err=""):
     """-> list of (signature, message); empty = the property holds on this case"""
     bad = []
@@ -262,6 +287,10 @@ def oracle_c18(c, r, err=""):
         if c["bounded"] and v <= ULPS * ulp(scale) and c["algo"] in FIRST_ORDER and r.get("violcb", 0) != 0:
             bad.append(("rounding-overshoot-at-face<=4ulp", "box left by %.3g (<= %d ulp of %.3g) at %s: rounding of x + (a*s)*d at a face reached by a line-search step"
                         % (v, ULPS, scale, where)))
+        elif v == float("inf") and c["algo"] == "L-BFGS" and c["f"] == "lin":
+            # F-32: zero curvature along the last step (linear cost): 1/max(s.y, 10*DBL_MIN) blows the two-loop direction up
+            bad.append(("lbfgs-zero-curvature-nan-state", "a NaN state was handed to the user at %s (L-BFGS on a cost with zero "
+                        "curvature: rho = 1/(10*DBL_MIN))" % where))
         else:
             bad.append(("box-violation", "state outside the box by %.6g at %s" % (v, where)))
     # --- start handling: the first state handed to the user is the projected start
@@ -293,7 +322,10 @@ def oracle_c18(c, r, err=""):
         gn, pinned = free_gradient_norm(c, r["x"], r["g"], r.get("absmax"))
         tol = c.get("tol", 0.1)
         if not (gn <= tol * (1 + 1e-12) + 1e-300):
-            bad.append(("converged-but-free-gradient-large", "status converged, but the gradient norm over the components not pinned by the "
+            sig = "converged-but-free-gradient-large"
+            if c["algo"] in SECOND_ORDER and held_inward(c, r, tol):
+                sig = "lm-converged-with-inward-gradient-at-bound"     # F-33
+            bad.append((sig, "status converged, but the gradient norm over the components not pinned by the "
                         "gradient's sign is %r > threshold %r (pinned: %s)" % (gn, tol, pinned)))
     # --- iteration budget
     if "maxit" in c and r["nit"] > c["maxit"]:
@@ -376,8 +408,28 @@ def gen_function(rng, n, exact, algo):
     return d
 
 
+def gen_tie(rng, algo):
+    """exact ties: identical components, so several faces are reached by the same step with identical operands
+    (the tie-breaking of the nearest-bound loop / of minloc is then deterministic in binary64 as well)"""
+    n = rng.choice([2, 2, 3, 4])
+    l = dy(rng, -2, 1); w = dy(rng, 0.5, 3) or 1.0
+    t = rng.choice([0.25, 0.5, 0.75])
+    c = {"algo": algo, "n": n, "bounded": True, "exact": True, "cls": "tie",
+         "lo": [l] * n, "up": [l + w] * n, "x0": [l + t * w] * n}
+    side = rng.choice([-1.0, 1.0])
+    if algo in FIRST_ORDER and rng.random() < 0.5:
+        c["f"] = "lin"; c["g"] = [-side] * n
+    else:
+        c["f"] = "quadd"; c["h"] = [rng.choice([0.5, 1.0, 2.0])] * n
+        c["c"] = [l + (w + dy(rng, 0.5, 4) if side > 0 else -dy(rng, 0.5, 4))] * n
+    c["maxit"] = 50; c["tol"] = 1e-6; c["eus"] = rng.choice([-1, 0, 1, 2]); c["maxcb"] = 60000
+    return c
+
+
 def gen_c18(rng, algo=None, force=None):
     algo = algo or rng.choice(ALGOS)
+    if rng.random() < 0.06:
+        return gen_tie(rng, algo)
     exact = rng.random() < 0.35
     n = rng.choice([1, 1, 2, 2, 3, 3, 4, 5, 6, 8, 12])
     bounded = rng.random() < 0.75
@@ -685,10 +737,24 @@ def gen_c19(rng, algo=None, nmax=10):
         c["x0"] = gen_start(rng, n, lo, up, False)
     else:
         c["x0"] = [rng.uniform(-4, 4) for _ in range(n)]
-    c["tol"] = rng.choice([1e-3, 1e-5, 1e-7])
+    # requested tolerance: never below what a cost-decrease test can resolve in binary64 (a step that reduces the
+    # gradient norm to tol changes the cost by about tol^2/(2 lambda_max); it must exceed a few ulp of the cost)
+    xs = project(c, c["x0"]) if c["bounded"] else c["x0"]
+    f0 = 0.5 * sum((xs[i] - c["c"][i]) * sum(H[i][j] * (xs[j] - c["c"][j]) for j in range(n)) for i in range(n))
+    floor = math.sqrt(2.0 * lmax * 1024 * ulp(max(f0, 1e-300)))
+    c["tol"] = max(rng.choice([1e-3, 1e-5, 1e-7]), floor)
     c["maxit"] = 50 * n
     c["maxcb"] = 200000
     return c
+
+
+def last_cap_frac(r):
+    """fraction of the last step the Levenberg minimizer tried (from the decision log), None if not logged"""
+    for e in reversed(r.get("log") or []):
+        w = e.split("/")
+        if w[0] == "CAP" and len(w) == 8:
+            return bits(w[5])
+    return None
 
 
 def oracle_c19(c, r, err=""):
@@ -707,7 +773,12 @@ def oracle_c19(c, r, err=""):
     xs = sols[0]
     bad = []
     if st != 0:
-        bad.append(("not-converged", "status %s after %d iterations (budget 50*n = %d) on a strictly convex quadratic with "
+        sig = "not-converged"
+        if c["algo"] in FIRST_ORDER and st == 2 and r["nit"] >= 50 * n:
+            sig = "first-order-budget-exhausted"                     # F-34
+        elif c["algo"] in SECOND_ORDER and st == 3 and last_cap_frac(r) == 0.0:
+            sig = "lm-stuck-free-variable-on-face"                   # F-35
+        bad.append((sig, "status %s after %d iterations (budget 50*n = %d) on a strictly convex quadratic with "
                     "condition number %.3g" % (ST.get(st, st), r["nit"], 50 * n, c["lmax"] / c["lmin"])))
         return bad
     if r["nit"] > 50 * n:
@@ -717,6 +788,88 @@ def oracle_c19(c, r, err=""):
     scale = max([1.0] + [abs(v) for v in r["x"]] + [abs(v) for v in c["c"]])
     limit = c["tol"] / c["lmin"] + 64 * n * ulp(scale) * (c["lmax"] / c["lmin"])
     if dist > limit:
-        bad.append(("converged-at-wrong-point", "status converged at distance %.6g from the KKT point (allowed tol/lambda_min = %.6g): x = %r, x* = %r"
+        sig = "converged-at-wrong-point"
+        if c["algo"] in SECOND_ORDER and held_inward(c, r, c["tol"]):
+            sig = "lm-converged-at-non-kkt-point-held-at-bound"      # F-33
+        bad.append((sig, "status converged at distance %.6g from the KKT point (allowed tol/lambda_min = %.6g): x = %r, x* = %r"
                     % (dist, limit, r["x"], [float(v) for v in xs])))
+    return bad
+
+
+# ------------------------------------------------------------------ H4 decision log -> model driver lines, float-regime oracles
+MODEL_TAGS = {"PROJ", "RELCG", "RELLM", "CONV", "NB", "LIM", "CAP", "LS0", "WOLFE", "BRK", "EXT", "CUB", "REF"}
+
+
+def model_lines(log):
+    """entries of one run's decision log -> lines for `adept_model minimizer` (DAMP+DAMPR are merged, FLAG is judged
+    in Python only)"""
+    out = []
+    pend = None
+    for e in log:
+        w = e.split("/")
+        if w[0] == "DAMP":
+            pend = w[1:]
+        elif w[0] == "DAMPR":
+            if pend is not None:
+                out.append("DAMPX " + " ".join(pend + w[1:]))
+            pend = None
+        elif w[0] in MODEL_TAGS:
+            out.append(" ".join(w))
+    return out
+
+
+def bits(h):
+    import struct
+    return struct.unpack(">d", bytes.fromhex(h))[0]
+
+
+def logvec(tok):
+    body = tok[2:] if tok.startswith(("v:", "i:")) else ""
+    if not body:
+        return []
+    return [int(t) for t in body.split(",")] if tok.startswith("i") else [bits(t) for t in body.split(",")]
+
+
+def oracle_log(c, r):
+    """independent (model-free) judgement of two logged facts, in the float regime:
+    flags_truthful  -- FLAG entries: a variable flagged -1/+1 lies within ULPS ulp (of the largest magnitude that
+                       component has had, or of the bound) of that face;
+    no_false_capture -- CAP entries: the captured variable is one whose collision fraction is the smallest.
+    -> list of (signature, message)"""
+    bad = []
+    absmax = r.get("absmax") or []
+    for e in r["log"]:
+        w = e.split("/")
+        if w[0] == "FLAG" and len(w) == 5:
+            bs, x, lo, up = logvec(w[1]), logvec(w[2]), logvec(w[3]), logvec(w[4])
+            for i, b in enumerate(bs):
+                if b == 0 or i >= len(x) or x[i] != x[i]:
+                    continue
+                face = lo[i] if b == -1 else up[i]
+                am = absmax[i] if i < len(absmax) else 0.0
+                tol = ULPS * ulp(max(abs(face), abs(x[i]), am))
+                if abs(x[i] - face) > tol:
+                    bad.append(("flag-not-on-face", "variable %d is flagged %+d but x = %r, face = %r (distance %.3g > %d ulp)"
+                                % (i, b, x[i], face, abs(x[i] - face), ULPS)))
+                    break
+        elif w[0] == "CAP" and len(w) == 8:
+            x, dx, lo, up = logvec(w[1]), logvec(w[2]), logvec(w[3]), logvec(w[4])
+            frac, ib, ty = bits(w[5]), int(w[6]), int(w[7])
+            if any(v != v or abs(v) == float("inf") for v in x + dx + [frac]):
+                continue
+            fr = {}
+            for i in range(len(x)):
+                if x[i] + dx[i] <= lo[i] and dx[i] != 0:
+                    fr[(i, -1)] = Fraction(lo[i]) - Fraction(x[i])
+                    fr[(i, -1)] /= Fraction(dx[i])
+                if x[i] + dx[i] >= up[i] and dx[i] != 0:
+                    fr[(i, 1)] = (Fraction(up[i]) - Fraction(x[i])) / Fraction(dx[i])
+            if ty != 0 and fr:
+                best = min(fr.values())
+                mine = fr.get((ib, ty))
+                if mine is None:
+                    bad.append(("false-capture", "captured variable %d (type %+d) does not collide with that bound" % (ib, ty)))
+                elif mine > best and float(mine - best) > 2.0 ** -40 * max(1e-300, abs(float(best)), abs(float(mine))):
+                    bad.append(("false-capture", "captured variable %d has collision fraction %.17g but variable %d reaches its bound "
+                                "first (fraction %.17g)" % (ib, float(mine), min(fr, key=fr.get)[0], float(best))))
     return bad
